@@ -186,6 +186,10 @@ fn run_ops(ops: &[POp], dev: Deviation, stats: &mut Stats, sig: &mut Fnv) -> Res
         }
         let msgs: Vec<String> = rx.try_iter().collect();
         let reads = read_all(&cpu);
+        trace_fold_bytes(&reads);
+        for m in &msgs {
+            trace_fold_bytes(m.as_bytes());
+        }
         o.check(&reads, &msgs, &before, now, now).map_err(|e| (i, e))?;
         sig.byte(match op {
             POp::Ddr { .. } => 1,
